@@ -79,7 +79,7 @@ FIELD_OWNERS = [
     (r"(build|step)\.nid$", ["C10", "C05"]),
     (r"(build|step)\.sig$", ["C05", "C06"]),
     (r"(build|step)\.(signreq|signcalls)$", ["C05", "C06", "C01"]),
-    (r"acc\.(id|ip4|ip6|tcp4|tcp6|udp4|udp6|udp4s|udp6s|tcp4s|tcp6s|udpr|tcpr|client|get)$", ["C14"]),
+    (r"acc\.(id|ip4|ip6|tcp4|tcp6|udp4|udp6|udp4s|udp6s|tcp4s|tcp6s|udpr|tcpr|client|get|gd)$", ["C14"]),
     (r"acc\.(text|disp)$", ["C12"]),
     (r"acc\.encs$", ["C04"]),
     (r"acc\.(pk|pkkey|nidpk|nidconv)$", ["C10"]),
